@@ -185,14 +185,15 @@ class TdMpsJob(object):
         os.makedirs(self.dump_dir, exist_ok=True)
         file_path = os.path.join(self.dump_dir, self.job_name + ".npz")
         bak_path = file_path + ".bak"
-        if os.path.exists(file_path):
-            # in case of shutdown while dumping
-            if os.path.exists(bak_path):
-                os.remove(bak_path)
-            os.rename(file_path, bak_path)
+        tmp_path = file_path + ".tmp.npz"
+        # in case of shutdown while dumping: write to a temporary file and move it into
+        # place atomically, so that the last complete result file is never removed or
+        # renamed before the new one is complete (also when restarting into a directory
+        # left behind by an interrupted dump)
+        np.savez(tmp_path, **d)
+        os.replace(tmp_path, file_path)
 
-        np.savez(file_path, **d)
-
+        # backup left behind by an interrupted dump of an earlier version
         if os.path.exists(bak_path):
             os.remove(bak_path)
 
